@@ -99,6 +99,12 @@ def cases(tier, salts):
                 if len(sel) == 4 and (salt != 0 or n != 2):
                     continue
                 for st in STARTS:
+                    # boundary values a user can pass: tolerance exactly zero (the rule can then never be met: the routine must run
+                    # to its cap) and a cap of one sweep.  (A cap of zero sweeps is outside the property: "exactly in the last
+                    # box" and "at most max_iter sweeps" cannot both hold for an infeasible start.)
+                    if len(sel) <= 2 and st in ("near", "far", "hair_tol"):
+                        for tol0, mi0 in ((0.0, 100), (0.0, 5), (1e-10, 1)):
+                            out.append({"n": n, "sel": list(sel), "start": st, "tol": tol0, "max_iter": mi0, "salt": salt})
                     for tol in TOLS:
                         for mi in ([100] if len(sel) > 2 and tier == "quick" else [100, 5, 1000]):
                             if mi != 100 and tol not in (1e-10, 1e-6):
@@ -243,7 +249,7 @@ def check_case(case):
         tags.append("start_inside")
         if np.max(np.abs(out - x0)) > 1e-15 * max(1.0, float(np.max(np.abs(x0)))):
             v.append(("fixed_point", "start already in all sets but moved by %.3g" % float(np.max(np.abs(out - x0)))))
-    elif case["max_iter"] >= 100 and not stopped and case["tol"] <= 1e-8:
+    elif case["max_iter"] >= 100 and not stopped and 0.0 < case["tol"] <= 1e-8:
         tags.append("optimality_eligible_but_capped")
     elif stopped:
         ref, cert = reference_projection(n, salt, case["sel"], "far" if hair else case["start"], off)
